@@ -38,7 +38,7 @@ pub fn hexl(v: &[Fq]) -> String {
 }
 
 pub fn affine_str(p: &G1Projective) -> String {
-    use group::Curve;
+    use group::{prime::PrimeCurveAffine, Curve};
     use midnight_curves::CurveAffine;
     let a: G1Affine = p.to_affine();
     if bool::from(a.is_identity()) {
